@@ -281,6 +281,15 @@ pub fn project(env: &Env) -> Map<String, Value> {
         );
     }
     m.insert("oracles".into(), Value::Object(orc));
+    let mut pools = Map::new();
+    for (n, p) in env.pools.iter() {
+        let (stake, supply) = env.pool_numbers(p);
+        pools.insert(
+            n.clone(),
+            json!({"mint": env.names.name(&p.mint), "sol_pool": env.names.name(&p.sol_pool), "stake": big_u(stake as u128), "supply": big_u(supply as u128), "state": p.state}),
+        );
+    }
+    m.insert("pools".into(), Value::Object(pools));
     let mut mints = Map::new();
     for (n, mi) in env.mints.iter() {
         mints.insert(
